@@ -184,10 +184,10 @@ func runC11Files(c *Ctx, cases []*GCase) bool {
 		return true
 	}
 	type tr struct {
-		Translate []int    `json:"translate"`
+		Translate []*int   `json:"translate"` // null: translate() returned no number (TypeScript undefined)
 		Names     []string `json:"names"`
 		Codes     []int    `json:"codes"`
-		Own       []int    `json:"own"`
+		Own       []*int   `json:"own"`
 	}
 	for i, gc := range cases {
 		s := gc.Spec
@@ -238,9 +238,25 @@ func runC11Files(c *Ctx, cases []*GCase) bool {
 			if msg := checkCodes(s, t.Codes, "variant "+v.Name+" constants"); msg != "" {
 				return fail("%s", msg)
 			}
-			// translate: injective on declared codes, own symbol
+			// translate: a symbol number for every integer
+			for k, p := range t.Own {
+				if p == nil {
+					return fail("variant %s: translate(%d) for the code of %s is not a number", v.Name, t.Codes[k], s.Terms[k].Text())
+				}
+			}
+			if len(t.Translate) != len(probes) {
+				c.Infra("variant %s: %d translate results for %d probes", v.Name, len(t.Translate), len(probes))
+				return true
+			}
+			for k, p := range t.Translate {
+				if p == nil {
+					return fail("variant %s: translate(%d) is not a number (undefined): every integer must be mapped to a symbol, undeclared ones to the error symbol", v.Name, probes[k])
+				}
+			}
+			// injective on declared codes, own symbol
 			symOf := map[int]int{}
-			for k, sym := range t.Own {
+			for k, symp := range t.Own {
+				sym := *symp
 				if j, dup := symOf[sym]; dup {
 					return fail("variant %s: translate maps the codes of %s and %s to the same symbol %d", v.Name, s.Terms[j].Text(), s.Terms[k].Text(), sym)
 				}
@@ -259,7 +275,7 @@ func runC11Files(c *Ctx, cases []*GCase) bool {
 			for _, cd := range t.Codes {
 				declared[cd] = true
 			}
-			eofSym := t.Translate[0]
+			eofSym := *t.Translate[0]
 			if _, clash := symOf[eofSym]; clash {
 				return fail("variant %s: translate(-1) = %d is the symbol of a token", v.Name, eofSym)
 			}
@@ -271,7 +287,7 @@ func runC11Files(c *Ctx, cases []*GCase) bool {
 				if p == -1 || declared[p] {
 					continue
 				}
-				got := t.Translate[k]
+				got := *t.Translate[k]
 				if _, clash := symOf[got]; clash || got == eofSym {
 					return fail("variant %s: translate(%d) = %d, but %d is not a declared token code", v.Name, p, got, p)
 				}
